@@ -252,6 +252,9 @@ func (h *JSONFormatterHook) PostFormat(entry *log.Entry, formatted *bytes.Buffer
 	if err != nil {
 		return err
 	}
+	// "integrity" is reserved for the integrity check which is not a part of authenticated data:
+	// field with the same name provided by a caller is replaced below
+	delete(parsed, IntegrityKey)
 	logEntryDataBytes, err := convertMapToBytes(parsed)
 	if err != nil {
 		return err
